@@ -21,6 +21,16 @@ source only (python `ast`; a small tokenizer + parser for the Scala `typ` member
   R10 the python struct primitives those rules are written with keep the field order the algebra (and TStruct.scala) assume: decided from the
       syntax tree of each helper as an order term (ordered union of fields(self) and fields(other), filter over self, iteration over the given
       names, order-preserving rename); no code is evaluated on sample values.
+  R11 STATIC INDEX DOMAIN.  GetTupleElement(o, idx) is typed by python as `o.typ.types[idx]` (python subscription: negative idx wraps around) and by
+      the engine through TTuple.fieldIndex (declared indices 0..n-1 only; rule read from InferType.scala).  Every construction site of such a node in the
+      front end must be reached with idx >= 0 only: decided by a path-sensitive lower-bound analysis over linear forms in len(...) symbols (guards,
+      `if i < 0: i += len(x)` normalisation, range / enumerate variables, constants, helper parameters at their call sites).
+  R12 CHILDREN AGREE.  TableUnion / TableMultiWayZipJoin / MatrixUnionRows / MatrixUnionCols are typed from their first child on both sides, and the engine's
+      TypeCheck demands that the children agree on rowType / key / globalType / entryType / ... (obligations READ from TypeCheck.scala), which python never
+      checks.  Every emitting front-end function (Table.union, multi_way_zip_join, MatrixTable.union_rows / union_cols) is abstractly executed path by path
+      over agreement facts: equality guards, any()/all()/len(set()) == 1 forms, re-assignment through table methods with known preserved components, and the
+      `unify` rebuild (`L[i] = t.select(**F[i])`, with F filled uniformly from ONE unify_exprs result per field, checked for success).  A type-blind guard
+      (names / lengths only) establishes nothing; a test or call that is not understood makes the path undecided (exit 2), never a violation.
   R5  REBUILD PATH.  `ir.subst` / `IR.map_ir` (MatrixTable.aggregate_rows) call `node.copy(*new_children)` on every node; copy must rebuild the
       same class (or a base class) and put its k-th argument back at child position k - armed only where the rebuilt node is actually constructed
       (if the constructor's own @typecheck_method is certain to reject the misplaced argument the instance is a diagnostic).
@@ -29,7 +39,8 @@ Diagnostics (INFO, never violations - see _Diag):
   R1-R3  environments / flag passed by `_compute_type` to each child (consulted only under deep_typecheck=True, which nothing in the repository
          enables), R4 ttable/tmatrix env methods, R6 copy arity / constructor signature mismatches (map_ir raises TypeError), children that
          `_compute_type` never types.
-Does not decide: typing rules of value-IR nodes (return types), BlockMatrix shape rules, relational binders of table.py (TableMapPartitions /
+Does not decide: typing rules of value-IR nodes (return types; child-type demands of the engine such as Int32 indices or MakeArray element agreement),
+BlockMatrix shape rules, multi-writers (MatrixMultiWrite: nothing is reported), relational binders of table.py (TableMapPartitions /
 TableGen names), `_eq`, `_handle_randomness`, literal typing (C32), requiredness (not represented in python types).
 """
 from __future__ import annotations
@@ -44,7 +55,8 @@ from engines.common import AnalysisError, Ctx
 
 META = dict(
     category='other',
-    text='Static comparison of what the front end reports with what it emits, on four fronts: (R7/R9) path-sensitive def-use analysis of every '
+    text='Static comparison of what the front end reports with what it emits, on six fronts: (R11) static tuple indices stay in the engine\'s domain at every '
+         'construction site; (R12) children of union-like nodes are made to agree (obligations read from TypeCheck.scala) on every path of every emitting function; (R7/R9) path-sensitive def-use analysis of every '
          'binder-emitting function of hail/expr: the type a bound variable is created with equals the type of the value the emitted IR binds to that name '
          '(binder metadata extracted from the IR classes); (R8/R10) the python _compute_type of every Table/Matrix IR node and the Scala typ of the same node '
          'are translated to one normal form over ordered struct operations and compared per component; (R5) the rebuild path map_ir/subst -> copy puts '
@@ -714,8 +726,53 @@ def check_relational(ctx: Ctx, t: ic.Table) -> None:
         ctx.info(f'[R8 not compared] {u}')
 
 
+# ---------------------------------------------------------------------------------------------------------------------------
+# R11: static tuple indices stay inside the engine's domain;  R12: children of union-like nodes are made to agree before emission
+# ---------------------------------------------------------------------------------------------------------------------------
+
+def check_index_domain(ctx: Ctx, t: ic.Table, undecided: List[str]) -> None:
+    sites, nodes, n_files = tr.index_domain_sites(t, thorough=ctx.tier == 'thorough')
+    ctx.unit('index_typed_ir_classes', len(nodes))
+    ctx.unit('index_emission_files', n_files)
+    for s in sorted(sites, key=lambda x: x.key):
+        n = s.node
+        if s.status == 'ok':
+            ctx.ok('R11', s.key, {'why': s.detail})
+        elif s.status == 'bad':
+            ctx.bad('R11', s.key,
+                    f'`{s.call_txt}` is {s.detail}. For a negative `{n.param}` in [-n, 0) python\'s {n.cls.name}._compute_type `{n.py_rule}` silently wraps around '
+                    f'(the front end reports the type of element n+{n.param} and assign_type agrees with itself), but the engine types the node by {n.engine_rule}: '
+                    f'the IR that is sent has no type at all (key not found), so the reported type is not the type of the IR', s.file, s.line)
+        else:
+            undecided.append(f'R11 {s.key}: {s.detail}')
+            ctx.info(f'[R11 not decided] {s.key}: {s.detail}')
+
+
+def check_children_agree(ctx: Ctx, t: ic.Table, undecided: List[str]) -> None:
+    results, nodes, notes, n_fn = tr.children_agreement_sites(t, thorough=ctx.tier == 'thorough')
+    ctx.unit('agreement_nodes', len(nodes))
+    ctx.unit('agreement_emitting_functions', n_fn)
+    ctx.extra_cov['agreement_obligations'] = {n.cls.name: n.comps for n in nodes}
+    for n in notes:
+        ctx.info(f'children agreement: {n}')
+    emitted = {r.key.split('::')[2].split('.')[0] for r in results}
+    for n in nodes:
+        if n.cls.name not in emitted:
+            ctx.info(f'{n.cls.name}: the engine demands agreement on {n.comps} but no front-end function outside hail/ir emits the node')
+    for r in sorted(results, key=lambda x: x.key):
+        if r.status == 'ok':
+            ctx.ok('R12', r.key)
+        elif r.status == 'bad':
+            ctx.bad('R12', r.key, r.msg, r.file, r.line)
+        else:
+            undecided.append(f'R12 {r.key}: {r.msg}')
+            ctx.info(f'[R12 not decided] {r.key}: {r.msg}')
+
+
 def run(ctx: Ctx) -> None:
     ctx.explanation = ('R7/R9: def-use interpretation of every binder-emitting front-end function against the binder metadata of the IR classes. '
+                       'R11: lower-bound analysis of the static index at every GetTupleElement construction. R12: path-by-path agreement facts for the children '
+                       'of union-like relational nodes against the obligations read from TypeCheck.scala. '
                        'R8/R10: python _compute_type vs scala typ of each relational node in a common ordered-struct normal form. '
                        'R5: constructor/copy signature binding for the rebuild path used by map_ir/subst. '
                        'Environment handling of _compute_type is analysed for diagnostics only (deep_typecheck-only).')
@@ -746,5 +803,22 @@ def run(ctx: Ctx) -> None:
     ctx.assume('R8: TableJoin is only emitted with joinKey == len(left key) == len(right key) (Table.join; the private _join_key parameter is not used in the repository)')
     ctx.assume('R8: requiredness of fields is not represented by the python types and is not compared; BlockMatrix nodes (shape arithmetic) are not compared')
     ctx.assume('R8: constructor parameters correspond by camelCased name, else by position')
+    ctx.rule('R11', 'every front-end construction of an IR node that python types by subscripting a tuple type with an int parameter (GetTupleElement) is reached '
+                    'only with a non-negative index: python wraps negative indices around, the engine looks the index up among the declared field indices', 13)
+    ctx.rule('R12', 'before the front end emits a node whose children the engine requires to agree (TableUnion, TableMultiWayZipJoin, MatrixUnionRows, '
+                    'MatrixUnionCols: components read from TypeCheck.scala) it has established that agreement on every path - by an equality guard on a type '
+                    'expression that determines the component, or by rebuilding every child through one unified projection', 12)
+    ctx.assume('R11: tuple types the front end can denote have declared indices 0..n-1 (ttuple renders without indices; TTuple.fieldIndex maps declared index -> '
+               'position); an index >= n makes python\'s own subscription raise before anything is sent')
+    ctx.assume('R12: Table.select(**fields) yields key fields first, then the given fields in keyword order, each with the type of its expression; '
+               'unify_exprs returns expressions of ONE common type when its last result is True; hl.missing(T) has type T; deduplicate(ids, ...) renames only '
+               'members of ids; MatrixTable.select_rows / rename leave the components they do not mention unchanged')
     check_binders(ctx, t)
     check_relational(ctx, t)
+    undecided: List[str] = []
+    check_index_domain(ctx, t, undecided)
+    check_children_agree(ctx, t, undecided)
+    ctx.extra_cov['sites_not_decided_R11_R12'] = undecided
+    if undecided:
+        # every other rule has reported; an emission this analysis cannot decide must not pass silently
+        raise AnalysisError(f'{len(undecided)} emission site(s) not decided - {undecided[0]}')
